@@ -110,9 +110,9 @@ Print Assumptions C13_iter_count.
 
 (* a value decoded from a placeholder that was bound to a value spec (C04's [Typing.spec], [Typing.accepts]) is accepted by
    that spec.  [bound] (Model/HyperTyping.v) is the binding-time validation of OneOf / ManyOf / Float.custom_apply.
-   PARTIAL: placeholder trees of oneof / manyof / floatv whose other candidates are constants, no filter; missing:
-   candidates that are containers with placeholders inside (validated field by field by the spec's own apply), Union /
-   Any specs, filters.  A custom hyper is accepted by every spec (CustomHyper.custom_apply), so nothing holds for it. *)
+   PARTIAL: placeholder trees of oneof / manyof / floatv over constants, and lists with such placeholders inside (a List
+   field validates element by element), no filter; missing: dicts / objects with placeholders inside as candidates
+   (validated field by field by the schema's own apply), manyof / floatv under a Union spec, filters.  A custom hyper is accepted by every spec (CustomHyper.custom_apply), so nothing holds for it. *)
 Theorem C13_decode_respects_spec_partial : forall cdec t sp d v, bound sp t ->
   valid (dna_spec (fun _ => true) t) d = true -> sdecode cdec (fun _ => true) t d = Ok v ->
   exists pv, to_pv v = Some pv /\ T.accepts sp pv.
